@@ -762,8 +762,8 @@ func TestC17(t *testing.T) {
 		return
 	}
 	r.CheckKnown(parts)
-	r.Rapid("grammar", r.N(40000, 1500000), c17Grammar)
-	r.Rapid("mutate", r.N(20000, 500000), c17Mutate)
+	r.Rapid("grammar", r.N(40000, 4000000), c17Grammar)
+	r.Rapid("mutate", r.N(20000, 1500000), c17Mutate)
 }
 
 func FuzzC17(f *testing.F) {
